@@ -330,6 +330,7 @@ where
   /// This is a zero-cost conversion. The `Drop` implementation of the
   /// original `TopicReceiver` is not called.
   pub fn to_async(self) -> AsyncTopicReceiver<K, T> {
+    let closed = self.closed.load(Ordering::Relaxed);
     // Use ptr::read to move fields and mem::forget to prevent drop.
     let dispatcher = unsafe { std::ptr::read(&self.dispatcher) };
     let consumer = unsafe { std::ptr::read(&self.consumer) };
@@ -341,7 +342,7 @@ where
       consumer,
       producer_mailbox,
       subscriptions,
-      closed: AtomicBool::new(false),
+      closed: AtomicBool::new(closed),
     }
   }
 }
